@@ -1,15 +1,27 @@
 ------------------------------ MODULE GenAttrs -------------------------------
 (* Replay direction of C19 (files): the scenarios (one JSON record per line  *)
-(* in $C19_SCEN: file kind, mode bits, flags, injected syscall outcomes) are *)
-(* run through Attrs and the complete prediction - system calls on source /  *)
-(* target with their arguments, messages, exit status, what is left on disk  *)
-(* - is printed for each at its terminal state.                              *)
-EXTENDS Attrs, TLC, Json, IOUtils
+(* in $C19_SCEN) say how xz is invoked - program name, XZ_DEFAULTS, XZ_OPT   *)
+(* and command-line tokens, source name - and what the file system looks     *)
+(* like (file kind, mode bits, existing target, injected syscall outcomes).  *)
+(* Args gives the effective options, Suffix the target name, Attrs the       *)
+(* system calls, messages, exit status and what is left on disk; the whole   *)
+(* prediction is printed for each scenario at its terminal state.            *)
+EXTENDS Attrs, Args, TLC, Json, IOUtils
 
 Scen == ndJsonDeserialize(IOEnv.C19_SCEN)
-GInit == \E i \in 1..Len(Scen) : AInit(Scen[i])
+Eff(s) == Effective(s.prog, s.dflt, s.xzopt, s.cmd)
+Cfg(s) == LET e == Eff(s) IN
+    [id |-> s.id, opmode |-> e.mode, keep |-> e.keep, force |-> e.force, stdout |-> e.stdout,
+     nowarn |-> e.nowarn, quiet |-> e.quiet,
+     kind |-> s.kind, smode |-> s.smode, nlink |-> s.nlink, uidSame |-> s.uidSame, gidSame |-> s.gidSame,
+     dstKind |-> s.dstKind, nameOK |-> (Target(e, s.srcName).kind = "name"), payloadOK |-> s.payloadOK,
+     ownOK |-> s.ownOK, grpOK |-> s.grpOK, chmodOK |-> s.chmodOK, root |-> s.root]
+GInit == \E i \in 1..Len(Scen) : ~Eff(Scen[i]).fatal /\ AInit(Cfg(Scen[i]))
 GSpec == GInit /\ [][ANext]_avars
 EmitDone == pc = "done" =>
+    LET s == CHOOSE x \in {Scen[i] : i \in 1..Len(Scen)} : x.id = cfg.id
+        e == Eff(s) IN
     PrintT(<<"PLAN", ToJson([id |-> cfg.id, sys |-> sys, msgs |-> msgs, exit |-> ExitOf, stderr |-> StderrOf,
-                             srcThere |-> srcThere, dst |-> dst])>>)
+                             srcThere |-> srcThere, dst |-> dst, eff |-> e, nameOK |-> cfg.nameOK,
+                             dstName |-> Target(e, s.srcName).name])>>)
 =============================================================================
